@@ -56,6 +56,8 @@ def json_outcome(raw):
     if not renderable(v):
         return None
     t = c_pv(v)
+    if "FNan" in t or "FInf" in t:      # NaN != NaN: result values could not be compared with ==
+        return None
     return "(Ok %s)" % t if len(t) < 20000 else None
 
 
@@ -185,7 +187,7 @@ def function_cases(ctx, dist):
     # ---- header handling of the registries
     pool = header_pool(ctx)
     if ctx.quick:
-        pool = pool[:40] + rng.sample(pool[40:], min(len(pool) - 40, 700))
+        pool = pool[:40] + rng.sample(pool[40:], min(len(pool) - 40, 360))
     jws_all, jwe_all = S.JWS_ALGS, S.JWE_ALL
     reg_jws = {(False, True): jws.JWSRegistry(), (False, False): jws.JWSRegistry(strict_check_header=False),
                (True, True): R7797(), (True, False): R7797(strict_check_header=False)}
@@ -314,12 +316,12 @@ def entry_cases(ctx, calls, dist):
     rng.shuffle(cand)
     per_tag = collections.Counter()
     picked = []
-    cap = ctx.scale(120, 1500)
+    cap = ctx.scale(60, 1500)
     for c in cand:
         if per_tag[c[4]] < cap:
             per_tag[c[4]] += 1
             picked.append(c)
-    picked = picked[: ctx.scale(4000, 60000)]
+    picked = picked[: ctx.scale(2000, 60000)]
     with VerifyRecorder() as rec:
         for (entry, value, keyname, reg, tag) in picked:
             del rec.log[:]
@@ -381,7 +383,7 @@ def run(ctx):
     if cases:
         ctx.sample({"coq_case": cases[len(cases) // 2][:300]})
     ev = lib.CoqEval(["From Model Require Import Base PyVal TableTypes C16Model C16Cases."], "c16case", "c16_check", "c16_show",
-                     shard=500, max_chars=150000)
+                     shard=300, max_chars=90000)
     t3 = time.time()
     res = ev.run(cases)
     ctx.sample({"secs_prove": round(t0 - ctx.t0, 1), "secs_coq_eval": round(time.time() - t3, 1)})
